@@ -208,15 +208,24 @@ class DrawFamily(Family):
             n += 1
         # unknown channel in the requested order
         for bad in ([99], list(occ) + [99]) if self.full else ([occ[0], 99] if occ else [99],):
-            with spying() as spy:
-                try:
-                    dc.plot_circuit(c, channel_order=bad)
-                    res.fail('C18-unknown-channel', 'program %r: order %r names an unoccupied channel and was drawn' % (prog, bad))
-                except ValueError:
-                    pass
-                except Exception as e:
-                    res.fail('C18-unknown-channel', 'program %r: order %r raised %s instead of ValueError' % (prog, bad, type(e).__name__))
-            world.close_figures()
+            with world.override(world.CFG_G):     # durations in force differ from the drawing's own
+                before = snapshot(c)
+                with spying() as spy:
+                    try:
+                        dc.plot_circuit(c, channel_order=bad)
+                        res.fail('C18-unknown-channel', 'program %r: order %r names an unoccupied channel and was drawn' % (prog, bad))
+                    except ValueError:
+                        pass
+                    except Exception as e:
+                        res.fail('C18-unknown-channel', 'program %r: order %r raised %s instead of ValueError' % (prog, bad, type(e).__name__))
+                world.close_figures()
+                # a rejected drawing leaves the circuit (and the duration settings it is read under) alone as well
+                after = snapshot(c)
+                if before != after:
+                    diff = [k for k in before if before[k] != after[k]]
+                    res.fail('C18-side-effect', 'program %r: the rejected drawing (order %r) changed what the circuit reports: %r; before %r after %r' % (
+                        prog, bad, diff, {k: before[k] for k in diff}, {k: after[k] for k in diff}))
+                    world.reset()
             n += 1
         res.outcome = tuple(outs)
         res.states = [canonical_state(c)]
